@@ -319,4 +319,5 @@ def r_raise(ctx):
 
 RULES = [r_field_table, r_dup_name, r_register, r_raise,
          lambda ctx: resource_constraints.r_attr(ctx, modules=None),
-         optional_rules.r_opt_rules, logic_rules.r_force_apply, resource_rules.r_select_workers]
+         optional_rules.r_opt_rules, logic_rules.r_force_apply, resource_rules.r_select_workers,
+         resource_constraints.r_union_exh_raise]
